@@ -72,6 +72,7 @@ func (w *World) checkStuckLocked() {
 
 // End is one end of a duplex connection.
 type End struct {
+	ReadChunk int // > 0: Read returns at most this many bytes per call
 	w       *World
 	peer    *End
 	q       []byte // bytes waiting to be read by this end
@@ -181,7 +182,11 @@ func (e *End) Read(p []byte) (int, error) {
 		}
 		e.unwaitLocked()
 	}
-	n := copy(p, e.q)
+	lim := len(p)
+	if e.ReadChunk > 0 && lim > e.ReadChunk {
+		lim = e.ReadChunk // a link that delivers in small pieces: short reads
+	}
+	n := copy(p[:lim], e.q)
 	e.q = e.q[n:]
 	if e.Record {
 		e.Got = append(e.Got, p[:n]...)
